@@ -254,14 +254,17 @@ void ThreadPool::threadLoopImpl(PerThreadData& data, int32_t ringIndex) {
 
     if (failCount >= kDefaultSpinLimit) {
       markIdle(isWorking);
+      DISPENSO_VERIF_POINT(::dispenso::verif::kPoolWorkerBeforeEnterSleep);
       if (kUseWakeSleep) {
         ws->enterSleep(ringIndex);
+        DISPENSO_VERIF_POINT(::dispenso::verif::kPoolWorkerAfterEnterSleep);
         if (!data.running()) {
           ws->exitSleep(ringIndex);
           break;
         }
       }
       const uint32_t preWaitEpoch = epoch;
+      DISPENSO_VERIF_POINT(::dispenso::verif::kPoolWorkerBeforeWait);
       epoch = waitOnThread(ringIndex, epoch);
       if (kUseWakeSleep) {
         ws->exitSleep(ringIndex);
@@ -310,6 +313,7 @@ void ThreadPool::resizeLocked(ssize_t sn) {
   for (auto& t : threads_) {
     t.stop();
   }
+  DISPENSO_VERIF_POINT(::dispenso::verif::kPoolResizeAfterStop);
   {
     auto* ws = detail::consumeLoad(wakeState_);
     if (ws) {
@@ -325,6 +329,7 @@ void ThreadPool::resizeLocked(ssize_t sn) {
     t.thread_.join();
   }
   threads_.clear();
+  DISPENSO_VERIF_POINT(::dispenso::verif::kPoolResizeAfterJoin);
 
   // Drain all rings in the arena (including shadow entries from prior resize-up)
   for (size_t i = 0; i < rings_.size(); ++i) {
@@ -348,6 +353,7 @@ void ThreadPool::resizeLocked(ssize_t sn) {
       rings_.grow_by(n - rings_.size());
     }
     numRings_.store(n, std::memory_order_release);
+    DISPENSO_VERIF_POINT(::dispenso::verif::kPoolResizeAfterRingCount);
 
     size_t newNumSteal = (n + stealRingSharing_ - 1) / stealRingSharing_;
     if (newNumSteal > stealRings_.size()) {
@@ -413,6 +419,7 @@ ThreadPool::~ThreadPool() {
   for (auto& t : threads_) {
     t.stop();
   }
+  DISPENSO_VERIF_POINT(::dispenso::verif::kPoolDtorAfterStop);
   {
     auto* ws = detail::consumeLoad(wakeState_);
     if (ws) {
